@@ -126,7 +126,8 @@ type c15bWorld struct {
 	clients map[int]*c15bClient
 	allowed map[string][2]uint64 // per user: bytes the server logged as allowed
 	handed  map[string][2]uint64 // per user: sum of cleared snapshots
-	kicked  map[string]int       // kicks acknowledged and not yet seen refused
+	kicked  map[string]int       // 1 while a kick has been acknowledged and no report of that user was refused since
+	kickBase map[string]int      // refusals seen when the pending kick was issued
 	refused map[string]int
 	dirty   bool // something happened whose effect on the connection set the harness cannot predict exactly
 	nconn   int
@@ -248,7 +249,7 @@ func (w *c15bWorld) get(path string) (int, []byte) {
 
 func execC15b(x *hysim.Run) {
 	sc := x.Script
-	w := &c15bWorld{x: x, clients: map[int]*c15bClient{}, allowed: map[string][2]uint64{}, handed: map[string][2]uint64{}, kicked: map[string]int{}, refused: map[string]int{}}
+	w := &c15bWorld{x: x, clients: map[int]*c15bClient{}, allowed: map[string][2]uint64{}, handed: map[string][2]uint64{}, kicked: map[string]int{}, kickBase: map[string]int{}, refused: map[string]int{}}
 	w.fab = simnet.NewFabric(x, simnet.LinkCfg{
 		Loss: uint64(sc.Get("net_loss", 0)), MinDelay: time.Duration(sc.Get("net_delay_us", 500)) * time.Microsecond, Jitter: 200 * time.Microsecond,
 	})
@@ -385,7 +386,10 @@ func execC15b(x *hysim.Run) {
 			x.Fault("kick")
 			// which connection of that user reports next (and is therefore closed) is up to traffic:
 			// drive one report through every connection of that user so the outcome is determined
-			w.kicked[user]++
+			if w.kicked[user] == 0 {
+				w.kickBase[user] = w.refused[user]
+			}
+			w.kicked[user] = 1 // the kick list is a set: several kicks before a report collapse into one
 		case "poll":
 			w.poll(op.Arg(0) == 1)
 			if !w.dirty && !lossy {
@@ -396,8 +400,8 @@ func execC15b(x *hysim.Run) {
 		}
 		// after a kick the next report of that user is refused and that connection closed: find out
 		// which of the harness's clients were hit by probing them (a closed client fails its calls)
-		for u, k := range w.kicked {
-			if k > 0 && w.refused[u] > 0 {
+		for _, u := range c15bUsers {
+			if w.kicked[u] > 0 && w.refused[u] > w.kickBase[u] {
 				w.settleKicks(u)
 			}
 		}
@@ -407,8 +411,10 @@ func execC15b(x *hysim.Run) {
 	w.fab.Quiet = true
 	time.Sleep(10 * time.Second)
 	synctest.Wait()
-	for u := range w.kicked {
-		w.settleKicks(u)
+	for _, u := range c15bUsers {
+		if w.kicked[u] > 0 && w.refused[u] > w.kickBase[u] {
+			w.settleKicks(u)
+		}
 	}
 	if !w.dirty {
 		w.checkOnline("end")
@@ -476,9 +482,7 @@ func (w *c15bWorld) settleKicks(user string) {
 			// the probe itself produced no traffic report (no payload), the connection is alive
 		}
 	}
-	if w.refused[user] >= w.kicked[user] {
-		w.kicked[user] = 0
-	}
+	w.kicked[user] = 0
 }
 
 func (w *c15bWorld) poll(clear bool) {
@@ -518,10 +522,13 @@ func (w *c15bWorld) poll(clear bool) {
 // checkOnline at a quiescent point: GET /online == connections the harness holds, per user.
 func (w *c15bWorld) checkOnline(when string) {
 	x := w.x
-	time.Sleep(time.Second) // packets in flight (timers) are not covered by synctest.Wait
 	if x.StallCount() > 0 {
-		time.Sleep(3 * time.Second)
+		// a stalled (slow) endpoint may miss its keep-alives and lose a connection to the 4 s idle
+		// timeout, which the harness cannot tell from a live one: census only in stall-free runs
+		x.Probe("census-skipped(stall)")
+		return
 	}
+	time.Sleep(time.Second) // packets in flight (timers) are not covered by synctest.Wait
 	synctest.Wait()
 	for u, k := range w.kicked {
 		if k > 0 {
